@@ -577,12 +577,12 @@ XML_RULE = ('databases built through the public API with every field of every pu
             'icons, pool binaries compressed and not, inner-header attachments, deleted objects) x 3 outer ciphers x {AES-KDF, Argon2d, Argon2id} x gzip on/off x 3 inner ciphers x '
             'credential compositions; each: real save, independent strict unwrap, tokenise, Lean writer model vs real events, Lean reader model vs real re-open, real re-open vs original')
 for pid, extra_rule, txt, part in [
-    ('C03', '', 'Kernel-checked: codec round trips, the container framing, and the struct-level XML round trip (writer events -> xml-rs contract -> reader) for values (plain and protected, with the '
-            'key-stream cursor), time-stamp maps, custom data, auto-type settings and whole entries with nested histories, for every key stream, cursor position and map iteration order '
-            '(C03_entry_roundtrip_partial). The faithful Lean models of the XML writer, the xml-rs contract and the XML reader are compared event-by-event and '
+    ('C03', '', 'Kernel-checked: the XML stage of save followed by the XML stage of open is the identity on every database of the domain ContentOk, for every key stream, '
+            'every iteration order of every map and with writer and reader ending at the same inner-stream cursor (C03_xml_roundtrip_partial : C03_xml_full ContentOk, by composition of the '
+            'struct-level theorems for values, time-stamp maps, custom data, auto-type, entries with nested histories, the group tree to any depth, Meta with icons / binary pool / memory protection, '
+            'deleted objects); the container framing (C03_framing) and the codecs. The faithful Lean models of the XML writer, the xml-rs contract and the XML reader are compared event-by-event and '
             'field-by-field with the real save/open on every generated database, and save∘open = id is checked on the real code with PartialEq.',
-     ['C03_xml_full (the whole schema) is stated; proved: codecs, container framing, Value / Times / CustomData / AutoType / Entry-with-history (entries without tags and colours); '
-      'groups, Meta, the document frame, tags and colours are validated by the correspondence (a test), not proved']),
+     ['the proved domain leaves out entry tags, colours, byte-string values and blank strings (validated by the correspondence, not proved); the xml-rs tokenizer/emitter is the contract `view` (validated, trusted)']),
     ('C07', '; oracle clauses of the strict reader are named individually', 'Kernel-checked: the library layout is one of the conforming layouts and decodes (framing theorem), sizes of IV/keys/seeds are '
             'those the algorithms require (decide over constants regenerated from the source). Every real save output is unwrapped by an independent strict reader and decoded by the Lean reader model.',
      ['the literal-CR question (F12): the emitter writes CR unescaped; xml-rs does not normalise line ends, a conforming XML processor would deliver LF — reported in DESIGN.md, not counted as a violation of C07']),
